@@ -200,12 +200,12 @@ public:
         std::coroutine_handle<> next_async(awaiter *caller) {
             //check state
             assert("Generator is busy" && _caller == nullptr);
-            //store caller - will be resumed upon finish
-            _caller = caller;
             //retrieve coroutine handle
             auto h = std::coroutine_handle<promise_type>::from_promise(*this);
-            //if done, throw exception
+            //if done, throw exception (before the caller is stored: a refused request must not leave the generator busy)
             if (h.done()) throw no_more_values_exception();
+            //store caller - will be resumed upon finish
+            _caller = caller;
             //return handle of generator to be resumed
             return h;
         }
